@@ -16,12 +16,16 @@
      (join N err ferr conv (ret (res) err log))
      (traverse (ids) ((id tag) ..) (ret nil|(res) err (visited ids)))
      (toerror NOUT (args) success errtag (ret (outs) err ((args))))
+     (toerrorp NOUT (name ..) (args) success errtag (ret ..))    name .. = the parameter names of f (symbols);
+                                   a call of a function-valued ARGUMENT shows in the log as (-9 id)
      (zero KIND NAMED LIT)
      (ir (a0 .. an) (STMT ..))     the body of a generated deriveCompose, translated by the harness:
                                    STMT = (call ((i j) ..) ev fn ((i j) ..)) | (iferr ev nzeros) | (ret ((i j) ..))
                                    variables numbered by where they are defined, not by name   *)
 From Verif Require Import Base Sexp Fmap.
 From Verif.Chain Require Import Chain ChainProofs Zero ComposeIR.
+From Verif.Chain Require ToErrorText.
+From Verif.Plumb Require Model.
 Open Scope string_scope.
 
 (* ---- the instrumented stages of the harness ---- *)
@@ -269,13 +273,34 @@ Definition eval_toerror (nout args success etag real : sexp) : verdict :=
 Definition get_syms (e : sexp) : option (list string) :=
   match e with L l => map_opt (fun x => match x with Sym s => Some s | _ => None end) l | _ => None end.
 
+Definition val_id (v : @ToErrorText.val Z Z) : Z :=
+  match v with ToErrorText.VData z => z | _ => (-1)%Z end.
+
 Definition eval_toerrorp (nout names args success etag real : sexp) : verdict :=
-  match get_syms names with
-  | Some ns =>
-      let v := eval_toerror nout args success etag real in
-      {| v_known := v_known v; v_model_ok := v_model_ok v; v_spec_ok := v_spec_ok v; v_guard := v_guard v;
-         v_model := v_model v; v_tag := v_tag v ++ "+named-params" |}
-  | None => bad_line
+  match get_nat nout, get_syms names, get_zs args, get_num success, get_num etag with
+  | Some n, Some ns, Some a, Some sc, Some et =>
+      if negb (Verif.Plumb.Model.nodupb ns && Nat.eqb (length ns) (length a)) then bad_line else
+      let ok := negb (sc =? 0)%Z in
+      let ft := fun (_ : nat) (x : list (@ToErrorText.val Z Z)) =>
+                  (map (@ToErrorText.VData Z Z) (hvals 0 n (map val_id x)), ok) in
+      (* model: the printed text with the names the generator chooses, resolved scope by scope *)
+      let model :=
+        match ToErrorText.run ft (ToErrorText.gen ns n) (err_of et) 0 (map (@ToErrorText.VData Z Z) a) with
+        | Some (outs, e, lg) =>
+            ret3 (of_zs (map val_id outs)) e (L (map (fun l => of_zs (map val_id l)) lg))
+        | None => Sym "stuck"
+        end in
+      let spec := ret3 (of_zs (hvals 0 n a)) (if ok then None else err_of et) (L [of_zs a]) in
+      let own := fun p => existsb (String.eqb p) ns in
+      mk ("toerror/n" ++ digit n ++ (if ok then "/true" else "/false") ++
+          (if (et =? 0)%Z then "/nil-err" else "") ++
+          (if existsb (fun x => (x =? 0)%Z) a then "+zero-args" else "") ++
+          "+params-named" ++ (if own "err" then "-err" else "") ++ (if own "f" then "-f" else "") ++
+          (if own "success" then "-success" else "") ++
+          (if own "out0" || own "out1" || own "out2" then "-out" else "") ++
+          (if own "err_" || own "f_" || own "success_" || own "out0_" then "-underscored" else ""))
+         model spec real
+  | _, _, _, _, _ => bad_line
   end.
 
 (* ---- zero literals (structural: the literal text found in derived.gen.go) ---- *)
